@@ -225,7 +225,7 @@ DIMS = [
     ("downsample", [None, 5]),
     ("motion_filter", [None, (0.5, 30.0), (100.0, 40.0)]),
     ("t_max_diff", [0.01, 0.3]),
-    ("t_offset", [0.0, 0.125]),
+    ("t_offset", [0.0, 0.125, 1.0]),
     ("crop", [None, (1.5, 3.5)]),
     ("project", [None, "xy", "xz", "yz"]),
     ("unit", [None, "compatible", "incompatible"]),
@@ -384,7 +384,7 @@ def lattice_points(ctx):
         sub = [("relation", DIMS[0][1]), ("align", DIMS[1][1]),
                ("n_to_align", [-1, 4, 6]), ("downsample", [None, 5]),
                ("motion_filter", [None, (0.5, 30.0)]),
-               ("t_max_diff", [0.01, 0.3]), ("t_offset", [0.0, 0.125]),
+               ("t_max_diff", [0.01, 0.3]), ("t_offset", [0.0, 0.125, 1.0]),
                ("crop", [None, (1.5, 3.5)]), ("project", [None, "xz"]),
                ("unit", [None, "compatible"]), ("fmt", ["tum"]),
                ("epoch", [0.0, 1.5e9])]
